@@ -72,12 +72,12 @@ static void prop(Tape &t, Ctx &c) {
         if (p.c.hs_complete()) c_was = true; if (p.s.hs_complete()) s_was = true;
         VF_CHECK(!c_was || p.c.hs_complete(), "handshake-state-regressed", "client: HandshakeIsComplete went back to false; %s", desc.c_str());
         VF_CHECK(!s_was || p.s.hs_complete(), "handshake-state-regressed", "server: HandshakeIsComplete went back to false; %s", desc.c_str());
-        // Known finding (see known_findings.json): a MatrixSSL server cannot rebuild an ECDHE_RSA ServerHello flight for
+        // Former known finding (repaired, see known_findings.json): a MatrixSSL server could not rebuild an ECDHE_RSA ServerHello flight for
         // retransmission; the resend flags the session as failed.  Classified by (suite kind, failing side, phase) so that
         // any other way of killing a session is still reported.
         bool ecdhe_rsa = su.id == 0xC013 || su.id == 0xC027 || su.id == 0xC028 || su.id == 0xC02F || su.id == 0xC030;
         if (ecdhe_rsa && p.s.failed && !s_was && !p.c.failed && !p.c.req_close) VF_FAIL("loss-or-duplication-killed-session:ecdhe-rsa-server-flight-resend-fails", "server could not retransmit its ECDHE_RSA flight (rc=%d); %s", p.s.last_rc, desc.c_str());
-        // Known finding class "handshake-retransmission": before both sides have completed, a schedule that forces flights to be
+        // Former known finding class "handshake-retransmission" (repaired; the signature is kept so that a regression is reported under it): before both sides have completed, a schedule that forces flights to be
         // retransmitted or reassembled out of order (any timeout / duplicate / reorder / drop) can end the session.
         bool disturbed = drops + dups + reorders + timeouts > 0;
         for (Endpoint *e : { &p.c, &p.s }) if ((e->failed || e->req_close || e->fatal_alert_recv >= 0) && disturbed && !(c_was && s_was))
@@ -87,9 +87,10 @@ static void prop(Tape &t, Ctx &c) {
     // ---- adversarial phase
     for (auto &a : adv) {
         net.collect(); int d = a.second; auto &q = net.q[d];
-        // Known finding (known_findings.json, C16 "fragment-reorder"): reordering the fragments of a fragmented handshake flight
+        // Former known finding (C16 "fragment-reorder", repaired): reordering the fragments of a fragmented handshake flight
         // can end the session.  Excluded by construction (counted) unless VF_NO_EXCLUDE is set (used to replay the reproducer).
-        if ((a.first == D_SWAP || a.first == D_HOLD) && pmtu < 1500 && !no_exclude) { c.count("excluded:reorder-with-fragmentation"); a.first = D_DELIVER; }
+        (void) no_exclude;   // fragment reordering used to be excluded by construction (known finding, repaired since): it is generated like everything else now
+        if ((a.first == D_SWAP || a.first == D_HOLD) && pmtu < 1500) c.count("reorder-with-fragmentation");
         switch (a.first) {
         case D_DELIVER: if (!q.empty()) { Bytes b = q.front(); q.pop_front(); net.deliver(d, b); } break;
         case D_DROP: if (!q.empty()) { q.pop_front(); drops++; } break;
